@@ -35,6 +35,68 @@ def c_unpack_num(ex, st, args, path, callee):
     raise Unsupported(f'unpack_num of {v}')
 
 
+def c_unpack_inline_int(ex, st, args, path, callee):
+    v = args[0]
+    if isinstance(v, Struct) and v.ty == 'ValueNum':
+        n = v.fields[0]
+        if n.variant == 'Int' and n.fields[0].variant == 'Small':
+            return ret(SOME(n.fields[0].fields[0]), path)
+        return ret(NONE(), path)
+    raise Unsupported(f'unpack_inline_int of {v}')
+
+
+def c_unpack_intref(ex, st, args, path, callee):
+    v = args[0]
+    if isinstance(v, Struct) and v.ty == 'ValueNum':
+        n = v.fields[0]
+        return ret(SOME(n.fields[0]) if n.variant == 'Int' else NONE(), path)
+    raise Unsupported(f'StarlarkIntRef::unpack of {v}')
+
+
+def c_downcast(ex, st, args, path, callee):
+    """Value::downcast_ref::<T>() on the operand datatype"""
+    v = args[0]
+    mm = re.search(r'downcast_ref::<(?:[\w:]*::)?(\w+)>$', callee)
+    if isinstance(v, Struct) and v.ty == 'ValueNum' and mm:
+        n = v.fields[0]
+        t = mm.group(1)
+        if t == 'StarlarkBigInt':
+            return ret(SOME(n.fields[0].fields[0]) if (n.variant == 'Int' and n.fields[0].variant == 'Big') else NONE(), path)
+        if t == 'StarlarkFloat':
+            if n.variant == 'Float':
+                mem = dict(st['mem'])
+                ex._tmp = getattr(ex, '_tmp', 0) + 1
+                key = ('tmp', ex._tmp, 'f')
+                mem[key] = Struct([n.fields[0]], 'StarlarkFloat')
+                return [('ret', SOME(Ref(key)), path, mem)]
+            return ret(NONE(), path)
+        return ret(NONE(), path)
+    raise Unsupported(f'downcast_ref {callee} of {v}')
+
+
+HASHER_DEFAULTS = {'write_i8': ('write_u8', 'u8'), 'write_i16': ('write_u16', 'u16'), 'write_i32': ('write_u32', 'u32'), 'write_i64': ('write_u64', 'u64'),
+                   'write_isize': ('write_usize', 'usize'), 'write_i128': ('write_u128', 'u128')}
+
+
+def c_hasher_method(ex, st, args, path, callee):
+    """<StarlarkHasher / Fx64Hasher as Hasher>::m: the repository impl if it defines m, else std's default (write_iN = write_uN(i as uN))"""
+    mm = re.match(r'^<(?:[\w:]*::)?(StarlarkHasher|Fx64Hasher) as (?:std::hash::)?Hasher>::(\w+)$', callee) or re.match(r'^(StarlarkHasher|Fx64Hasher)::(\w+)$', callee)
+    ty, meth = mm.group(1), mm.group(2)
+    file = 'hasher.rs' if ty == 'StarlarkHasher' else 'fx64.rs'
+    ms = ex.db.find_in_file(file, meth, rf'_1: &(?:mut )?{ty}', unique=False)
+    if ms:
+        return [('ret', v, p, m2) for v, p, m2 in ex.run(ex.get_fn(ms[0]), args, path, 1, (), st['mem'])]
+    if meth in HASHER_DEFAULTS:
+        um, uty = HASHER_DEFAULTS[meth]
+        from mirsym.exec import INT_TY
+        x = args[1]
+        w = INT_TY[uty][0]
+        if z3.is_bv(x) and x.size() != w:
+            raise Unsupported('hasher default width')
+        return ex.call(st, f'<{ty} as Hasher>::{um}', [args[0], x], path, 1)
+    raise Unsupported(f'Hasher method {meth} of {ty}')
+
+
 def c_option_eq(ex, st, args, path, callee):
     a, b = d(ex, args[0]), d(ex, args[1])
     if a.variant != b.variant:
@@ -107,13 +169,13 @@ def c_smaller_than_i32(ex, st, args, path, callee):
 EXTRA = [
     ('PointerI32::get = the tagged pointer is the int (receiver plumbing)', r'^(pointer_i32::)?PointerI32::get$', c_ptr_get),
     ('Value::unpack_num = the other operand\'s NumRef (receiver plumbing)', r'Value::<.*>::unpack_num$', c_unpack_num),
+    ('Value::unpack_inline_int = the other operand if it is an inline int (receiver plumbing)', r'Value::<.*>::unpack_inline_int$', c_unpack_inline_int),
+    ('StarlarkIntRef::unpack(Value) = the other operand if it is an int (receiver plumbing)', r'StarlarkIntRef::<.*>::unpack(_value_opt)?$|^<StarlarkIntRef<.*> as UnpackValue<.*>>::unpack_value_opt$', c_unpack_intref),
+    ('Value::downcast_ref::<StarlarkBigInt|StarlarkFloat> on the operand datatype (receiver plumbing)', r'Value::<.*>::downcast_ref::<.*>$', c_downcast),
     ('Option<T> == Option<T> (std derive) via T::eq', r'^<(std::option::)?Option<.+> as PartialEq>::eq$', c_option_eq),
     ('vtable dispatch of <Self as StarlarkValue>::m', r'^<Self as StarlarkValue<.*>>::\w+$', c_self_dispatch),
     ('<u64 as Hash>::hash = Hasher::write_u64', r'^<u64 as (std::hash::)?Hash>::hash::<', c_hash_u64),
-    ('Hasher::write_u64 on StarlarkHasher -> repository impl', r'^<StarlarkHasher as (std::hash::)?Hasher>::write_u64$|^StarlarkHasher::write_u64$', c_hasher_write_u64),
-    ('Hasher::write_u64 on Fx64Hasher -> repository impl', r'^<(fx64::)?Fx64Hasher as (std::hash::)?Hasher>::write_u64$', c_fx_write_u64),
-    ('Hasher::finish on Fx64Hasher -> repository impl', r'^<(fx64::)?Fx64Hasher as (std::hash::)?Hasher>::finish$', c_fx_finish),
-    ('Hasher::finish on StarlarkHasher -> repository impl', r'^<StarlarkHasher as (std::hash::)?Hasher>::finish$', c_hasher_finish),
+    ('Hasher methods of StarlarkHasher / Fx64Hasher: repository impl, else std default (write_iN = write_uN)', r'^<(?:[\w:]*::)?(StarlarkHasher|Fx64Hasher) as (std::hash::)?Hasher>::\w+$|^StarlarkHasher::write_u64$', c_hasher_method),
     ('Default for Fx64Hasher -> repository derive', r'^<(fx64::)?Fx64Hasher as Default>::default$', c_fx_default),
     ('Default for StarlarkHasher -> repository derive', r'^<StarlarkHasher as Default>::default$', c_hasher_default),
 ]
@@ -476,13 +538,15 @@ def replay_witness(w, rp):
         prog = ('(x == y, y == x, (x in {y: 1}), (y in {x: 1}), ((x, 0) in {(y, 0): 1}), x < y, y < x, x <= y, y <= x)')
     else:
         prog = ('(x == y, y == z, x == z, x <= y, y <= z, x <= z)')
-    cases = [{'kind': 'eval', 'program': prog, 'vars': vars_}]
+    fargs = ', '.join(names)
+    cases = [{'kind': 'eval', 'program': prog, 'vars': vars_},
+             {'kind': 'eval', 'program': f'def check({fargs}):\n    return {prog}\ncheck({fargs})', 'vars': vars_}]     # same laws inside a function body
     got = {}
     repro = False
     detail = ''
-    for profile in ('dev', 'release'):
-        res = rp.run(cases, profile)[0]
-        got[profile] = res
+    for profile, ci in (('dev', 0), ('dev', 1), ('release', 0), ('release', 1)):
+        res = rp.run([cases[ci]], profile)[0]
+        got[f'{profile}/{"module" if ci == 0 else "function"}'] = res
         if 'panic' in res or 'abort' in res:
             repro = True
             detail = 'panic'
